@@ -484,6 +484,11 @@ Proof.
     apply (chain_assigns (fun a => names_key (assign_map a) = false)); auto.
   - cbn [res_tbl]. unfold save_slice_run. now apply slice_run_wf.
   - now apply save_omit_wf.
+  - cbn [res_tbl]. unfold create_slice_run.
+    assert (G : forall vs t0 a, wf t0 -> wf (fst (fold_left (fun acc v0 => let r := create (fst acc) now (Some ru) v0 in
+                (res_tbl r, snd acc + res_ra r)) vs (t0, a)))).
+    { induction vs0 as [|v0 vs0 IH]; intros t0 a W; cbn [fold_left fst snd]; [exact W|]. apply IH. now apply create_wf. }
+    now apply G.
   - unfold create_u. destruct (if r_id (fill_times now v) =? 0 then None else lookup t _) as [old|].
     + destruct (rule_fires ru old && _); [exact Hwf|now apply create_wf].
     + destruct (email_clash t _ _); [destruct (untargeted_nothing ru tgt); exact Hwf|now apply create_wf].
